@@ -343,6 +343,80 @@ Section Main.
   Proof.
     intros n s Hs Hg. rewrite (run_node_pure n s Hs (guard_enter _ _ Hg)). f_equal. apply pure_is_spec. exact Hg.
   Qed.
+
+  (* ---- several config files one after the other: induction over the sequence; the step is the single-file theorem,
+     applicable again because the state it leaves is the state it found ---- *)
+  Lemma run_cfgs_restored : forall tops s acc, is_abs (cwd s) = true ->
+    cfgs_enter_guard files links (fx_lf fxs) (fx_rp fxs) dir_ok (cwd s) tops = true ->
+    fst (run_cfgs fxs files links dir_ok s tops acc) = s.
+  Proof.
+    induction tops as [|[top body] rest IH]; intros s acc Hs Hg; [reflexivity|].
+    unfold cfgs_enter_guard in Hg. simpl in Hg. apply andb_true_iff in Hg. destruct Hg as [H1 H2].
+    simpl. rewrite (run_top_pure s top body Hs H1).
+    destruct (pure_top (cwd s) top body); try reflexivity. apply IH; assumption.
+  Qed.
+
+  Lemma run_cfgs_ok : forall tops s acc, is_abs (cwd s) = true ->
+    cfgs_guard files links (fx_lf fxs) (fx_rp fxs) dir_ok (cwd s) tops = true ->
+    run_cfgs fxs files links dir_ok s tops acc = (s, spec_cfgs files links (cwd s) tops acc).
+  Proof.
+    induction tops as [|[top body] rest IH]; intros s acc Hs Hg; [reflexivity|].
+    unfold cfgs_guard in Hg. simpl in Hg. apply andb_true_iff in Hg. destruct Hg as [H1 H2].
+    simpl. rewrite (run_top_ok s top body Hs H1).
+    destruct (spec_top files links (cwd s) top body); try reflexivity. apply IH; assumption.
+  Qed.
+
+  (* the body of get_defaults' loop for a file that exists is run_top of that file *)
+  Lemma top_bracket s top body : present files links (cwd s) top = true ->
+    bracket fxs links dir_ok (Some (join (cwd s) top)) (seq_nodes RUN body) s = run_top fxs files links dir_ok s top body.
+  Proof. intros Hp. unfold run_top. rewrite open_fr_spec, Hp. reflexivity. Qed.
+
+  Lemma run_defaults_abs_ok : forall tops s acc, is_abs (cwd s) = true ->
+    defaults_guard files links (fx_lf fxs) (fx_rp fxs) dir_ok (cwd s) tops = true ->
+    run_defaults_abs fxs files links dir_ok s (resolve_defaults files links s tops) acc
+    = (s, spec_defaults_acc files links (cwd s) tops acc).
+  Proof.
+    induction tops as [|[top c] rest IH]; intros s acc Hs Hg; [reflexivity|].
+    unfold defaults_guard in Hg. simpl in Hg. apply andb_true_iff in Hg. destruct Hg as [H1 H2].
+    unfold resolve_defaults. simpl flat_map. fold (resolve_defaults files links s rest).
+    rewrite open_fr_spec. simpl spec_defaults_acc.
+    destruct (present files links (cwd s) top) eqn:Hp; simpl negb; cbv iota.
+    2:{ simpl app. apply IH; assumption. }
+    simpl app. destruct c as [body| |]; simpl run_defaults_abs.
+    - rewrite (top_bracket s top body Hp). simpl body_of in H1. rewrite (run_top_ok s top body Hs H1).
+      unfold spec_top. rewrite Hp.
+      destruct (spec_list (spec_node files links) (dir_of links (cwd s) top) body); try reflexivity.
+      apply IH; assumption.
+    - apply IH; assumption.
+    - reflexivity.
+  Qed.
+
+  Lemma run_defaults_ok : forall tops s, is_abs (cwd s) = true ->
+    defaults_guard files links (fx_lf fxs) (fx_rp fxs) dir_ok (cwd s) tops = true ->
+    run_defaults fxs files links dir_ok s tops = (s, spec_defaults files links (cwd s) tops).
+  Proof. intros tops s Hs Hg. apply run_defaults_abs_ok; assumption. Qed.
+
+  Lemma run_defaults_abs_restored : forall tops s acc, is_abs (cwd s) = true ->
+    defaults_enter_guard files links (fx_lf fxs) (fx_rp fxs) dir_ok (cwd s) tops = true ->
+    fst (run_defaults_abs fxs files links dir_ok s (resolve_defaults files links s tops) acc) = s.
+  Proof.
+    induction tops as [|[top c] rest IH]; intros s acc Hs Hg; [reflexivity|].
+    unfold defaults_enter_guard in Hg. simpl in Hg. apply andb_true_iff in Hg. destruct Hg as [H1 H2].
+    unfold resolve_defaults. simpl flat_map. fold (resolve_defaults files links s rest).
+    rewrite open_fr_spec.
+    destruct (present files links (cwd s) top) eqn:Hp; cbv iota.
+    2:{ simpl app. apply IH; assumption. }
+    simpl app. destruct c as [body| |]; simpl run_defaults_abs.
+    - rewrite (top_bracket s top body Hp). simpl body_of in H1. rewrite (run_top_pure s top body Hs H1).
+      destruct (pure_top (cwd s) top body); try reflexivity. apply IH; assumption.
+    - apply IH; assumption.
+    - reflexivity.
+  Qed.
+
+  Lemma run_defaults_restored : forall tops s, is_abs (cwd s) = true ->
+    defaults_enter_guard files links (fx_lf fxs) (fx_rp fxs) dir_ok (cwd s) tops = true ->
+    fst (run_defaults fxs files links dir_ok s tops) = s.
+  Proof. intros tops s Hs Hg. apply run_defaults_abs_restored; assumption. Qed.
 End Main.
 
 (* with both repairs of this half (list-file fallback, realpath before chdir) and a file system in which the
@@ -376,6 +450,44 @@ Lemma run_top_repaired : forall fxs files links dir_ok s top body,
 Proof.
   intros fxs files links dir_ok s top body L R D H.
   apply run_top_ok; [exact H|]. rewrite L, R. apply tree_guard_fixed. exact D.
+Qed.
+
+(* ... and so is every sequence of config files / default config files *)
+Lemma run_cfgs_repaired : forall fxs files links dir_ok s tops acc,
+  fx_lf fxs = true -> fx_rp fxs = true -> (forall d, dir_ok d = true) -> is_abs (cwd s) = true ->
+  run_cfgs fxs files links dir_ok s tops acc = (s, spec_cfgs files links (cwd s) tops acc).
+Proof.
+  intros fxs files links dir_ok s tops acc L R D H.
+  apply run_cfgs_ok; [exact H|]. rewrite L, R. unfold cfgs_guard. apply forallb_forall. intros tb _.
+  apply tree_guard_fixed. exact D.
+Qed.
+
+Lemma run_defaults_repaired : forall fxs files links dir_ok s tops,
+  fx_lf fxs = true -> fx_rp fxs = true -> (forall d, dir_ok d = true) -> is_abs (cwd s) = true ->
+  run_defaults fxs files links dir_ok s tops = (s, spec_defaults files links (cwd s) tops).
+Proof.
+  intros fxs files links dir_ok s tops L R D H.
+  apply run_defaults_ok; [exact H|]. rewrite L, R. unfold defaults_guard. apply forallb_forall. intros tb _.
+  apply tree_guard_fixed. exact D.
+Qed.
+
+(* merging keeps what the later file says, whatever came before *)
+Lemma merge_items_later old new x : In x new -> In x (merge_items old new).
+Proof. intro H. unfold merge_items. apply in_or_app. right. exact H. Qed.
+
+(* ... and keeps an earlier value exactly when the later file says nothing about its key *)
+Lemma merge_items_earlier old new x : In x old ->
+  (In x (filter (fun o => negb (existsb (fun n => Nat.eqb (unit_of o) (unit_of n)) new)) old)
+   <-> forall n, In n new -> unit_of x <> unit_of n).
+Proof.
+  intro H. rewrite filter_In. split.
+  - intros [_ E] n Hn Q. apply negb_true_iff in E.
+    assert (existsb (fun n0 => Nat.eqb (unit_of x) (unit_of n0)) new = true) as T.
+    { apply existsb_exists. exists n. split; [exact Hn|]. apply Nat.eqb_eq. exact Q. }
+    rewrite T in E. discriminate.
+  - intro Q. split; [exact H|]. apply negb_true_iff.
+    destruct (existsb (fun n0 => Nat.eqb (unit_of x) (unit_of n0)) new) eqn:T; [|reflexivity].
+    apply existsb_exists in T. destruct T as [n [Hn E]]. apply Nat.eqb_eq in E. exfalso. exact (Q n Hn E).
 Qed.
 
 (* ---- what breaks without the `finally`: the bracket written as plain sequencing ------------------ *)
